@@ -82,6 +82,8 @@ class Sched(object):
             co.result = ("exit",)
             for h in list(co.handles):
                 h.close()
+        except (core.HarnessError, getattr(core, "Unsupported", core.HarnessError)) as e:
+            co.error = e
         except Exception as e:               # an exception of the code under test ends the thread, as in CPython
             co.result = ("raise", e)
         except BaseException as e:           # explorer control flow (path abort, bound, unsupported, ...)
@@ -278,6 +280,7 @@ class FakeSock(object):
 
 class ListenerEP(object):
     def __init__(self):
+        self.fail_next = None       # errno of a failure the next accept() call reports
         self.pending = []
         self.refs = 0
         self.shut = False
@@ -330,11 +333,14 @@ class FakeListener(object):
     def accept(self):
         self._check()
         ep = self.ep
-        if not ep.pending and not ep.shut:
-            self.world.sched.block("accept", lambda: bool(ep.pending) or ep.shut or self.closed)
+        if not ep.pending and not ep.shut and ep.fail_next is None:
+            self.world.sched.block("accept", lambda: bool(ep.pending) or ep.shut or self.closed or ep.fail_next is not None)
             self._check()
         if ep.shut:
             raise OSError(errno.EINVAL, "Invalid argument")
+        if ep.fail_next is not None:
+            e, ep.fail_next = ep.fail_next, None
+            raise OSError(e, "accept failed")
         c = ep.pending.pop(0)
         ep.accepted += 1
         sock = FakeSock(self.world, c)
@@ -530,6 +536,9 @@ class Log(object):
 class World(object):
     def __init__(self, interp=None):
         self.interp = interp
+        if interp is not None and Killed not in interp.control_exceptions:
+            # a thread that is killed at the end of a path, or a child process calling os._exit, runs no finally blocks
+            interp.control_exceptions = interp.control_exceptions + (Killed, CoExit)
         self.sched = Sched(self)
         self.listener_ep = ListenerEP()
         self.endpoints = []
@@ -744,6 +753,11 @@ class Scenario(object):
     def leave(self, c, how):
         c["left"] = how
         c["ep"].peer = how
+
+    def accept_fails(self, err):
+        """the next accept() call of the server fails with errno err (a client aborted its pending connection, or
+        the clients have used up the descriptors / buffers of the process or the system)"""
+        self.world.listener_ep.fail_next = err
 
     def close_server(self):
         self.world.closing = True
